@@ -627,6 +627,7 @@ func c03Envs() []zooEnv {
 }
 
 func runC03(c *Ctx) {
+	defer definedTypeProbe(c, "C03") // defined scalar types: real-code oracle only (defined_zoo.go)
 	c.R.Rule = "a case = one (environment, generated expression or single-fault mutant, result directive); non-trivial when the expression has at least one operator, call, member or builtin"
 	envs := c03Envs()
 	n := 2500
